@@ -183,6 +183,20 @@ class Diff(Sub):
         req(dabs.total_seconds() >= 0, "diff() (abs=True) is negative", got=dabs.total_seconds())
         req(round(dabs.total_seconds() * 10**6) == abs(exp), "diff() (abs=True) is not the magnitude of the difference",
             got=dabs.total_seconds(), expected=abs(exp) / 10**6)
+        # the magnitude's own components (what diff() with abs=True reports: hours, minutes, remaining_seconds, microseconds) add up to the distance, in either
+        # order of the operands, and as an operand of + / - it moves the earlier time onto the later one and back.  (The native timedelta slots of an
+        # AbsoluteDuration keep the sign of what it was built from - by design, and not what the property observes; see DESIGN 0.3.)
+        for nm, dd in (("t.diff(t2)", dabs), ("t2.diff(t)", t2.diff(t))):
+            comp = ((((dd.weeks * 7 + dd.remaining_days) * 24 + dd.hours) * 60 + dd.minutes) * 60 + dd.remaining_seconds) * 10**6 + dd.microseconds
+            req(comp == abs(exp), f"{nm}: hours/minutes/remaining_seconds/microseconds do not add up to the distance", got=comp, expected=abs(exp))
+            req(dd.in_seconds() == abs(exp) // 10**6, f"{nm}: in_seconds() is not the distance truncated", got=dd.in_seconds(), expected=abs(exp) // 10**6)
+            if D.timedelta.days.__get__(dd) != 0:
+                continue        # built later-first: natively a negative timedelta, i.e. one with a day component (-1), which + / - reject like any other
+            lo_t, hi_t = (t, t2) if a <= b else (t2, t)
+            r = lo_t + dd
+            req(type(r) is Time and tus(r) == max(a, b), f"earlier + {nm} is not the later time", got=str(r), expected=hmsu(max(a, b)))
+            r = hi_t - dd
+            req(type(r) is Time and tus(r) == min(a, b), f"later - {nm} is not the earlier time", got=str(r), expected=hmsu(min(a, b)))
         d = t2 - t
         req(tdus(d) == exp, "t2 - t is not the signed difference", got=tdus(d), expected=exp)
         n = D.time(*hmsu(a))
